@@ -77,6 +77,9 @@ type txnResult struct {
 	Ops       []opResult
 	Committed bool   // false: the implementation aborted the transaction
 	AbortMsg  string // the message of the liveness probe when aborted
+	// CommitPanic: committing / merging the transaction panicked (in production
+	// the merge runs in a background goroutine and ends the process)
+	CommitPanic string
 }
 
 func (im *impl) runTxn(ops []op) txnResult {
@@ -134,7 +137,13 @@ func (im *impl) runTxn(ops []op) txnResult {
 		ut.Abort()
 		return res
 	}
-	im.db.CommitMerge(ut)
+	if e := lib.Try(func() { im.db.CommitMerge(ut) }); e != nil {
+		res.CommitPanic = lib.PanicText(e)
+		if res.CommitPanic == "" {
+			res.CommitPanic = fmt.Sprint(e)
+		}
+		return res
+	}
 	res.Committed = true
 	return res
 }
